@@ -3,6 +3,8 @@
 (* over and over, and reads of a topology that #includes one of the paths in between.                                             *)
 (*   gen  event: path, written, built (molecule in memory at the writer call), lines (the text at the path after the run)         *)
 (*   read event: path, now (the text at the path when it is read), readok, read (Topology.from_gmx_topfile), read2 (from_itp)     *)
+(*   readff event: the same through MetaMolecule.from_itp into the ONE force field the process keeps (library loaded / earlier     *)
+(*               molecules of the same name in it)                                                                                *)
 (* The trace specification keeps the file system as state (tfs): a write replaces the content of its path only, a read returns    *)
 (* Read(current content of the path) - whatever was written there or read from there before.                                      *)
 EXTENDS ItpRoundTrip, Json, IOUtils
@@ -20,10 +22,15 @@ TRead == /\ Ev.op = "read" /\ Ev.readok
          /\ Ev.now = tfs[Ev.path]                                   \* nothing but the last write to this path decides its content
          /\ LET r == Read(tfs[Ev.path]) IN r.ok /\ SameFast(Ev.read, r) /\ SameFast(Ev.read2, r)
          /\ tfs' = tfs
+\* MetaMolecule.from_itp into the one force field of the process, whatever it holds (the library, molecules read before): the same law
+TReadFF == /\ Ev.op = "readff" /\ Ev.readok
+           /\ Ev.now = tfs[Ev.path]
+           /\ LET r == Read(tfs[Ev.path]) IN r.ok /\ SameFast(Ev.read, r)
+           /\ tfs' = tfs
 Frozen == /\ mol = 0 /\ pc = "trace" /\ out = <<>> /\ secs = {} /\ cur = "" /\ groups = <<>> /\ pend = <<>> /\ gopen = NoGuard
           /\ late = FALSE /\ rd = R0 /\ ri = 1
 TInit == Frozen /\ tid \in 1..Len(Traces) /\ l = 1 /\ tfs = [p \in TPaths |-> <<>>]
-TNext == /\ l <= Len(Traces[tid]) /\ (TGen \/ TRead) /\ l' = l + 1 /\ tid' = tid /\ UNCHANGED vars
+TNext == /\ l <= Len(Traces[tid]) /\ (TGen \/ TRead \/ TReadFF) /\ l' = l + 1 /\ tid' = tid /\ UNCHANGED vars
 TSpec == TInit /\ [][TNext]_<<vars, tid, l, tfs>>
 Mark == (l = Len(Traces[tid]) + 1) => TLCSet(1, TLCGet(1) \cup {tid})
 Prog == TLCSet(2, [TLCGet(2) EXCEPT ![tid] = IF @ < l - 1 THEN l - 1 ELSE @])
